@@ -47,6 +47,9 @@ def _api(name):
     }[name]
 
 
+_PROTO = __import__("re").compile(r"^[a-zA-Z]{0,64}:?//")
+
+
 def _key(stems):
     return tuple(s for s in stems if s != "p:")
 
@@ -81,7 +84,16 @@ def eval_history(case):
             # so that a defect in the stems themselves (e.g. a spurious empty host stem) is not mirrored by the model
             from vlib.lruref import reference_stems
             return reference_stems(url, sa)
-        return stemfn(url, suffix_aware=sa, **kw)
+        # variant tries: the key is the (reference) stems of the variant function's *string* result, so that the class's own
+        # tokenizer (e.g. one that forgets suffix_aware) is not mirrored by the model; a result without protocol has no 's:' stem
+        from vlib.lruref import reference_stems
+        fn_ = getattr(ural, variant)
+        s_ = fn_(url, **kw)
+        exp_ = reference_stems(s_, sa)
+        stripped = variant == "fingerprint_url" or (variant == "normalize_url" and (kw.get("strip_protocol", True) or not _PROTO.match(s_)))
+        if stripped or s_.startswith("//"):
+            exp_ = [x for x in exp_ if not x.startswith("s:")]
+        return exp_
 
     ops = case["ops"]
     for i, (form, url, val) in enumerate(ops):
@@ -164,7 +176,7 @@ EVALUATORS = {"lrutrie_history": eval_history}
 SMALL = ["http://a.com", "http://a.com/", "http://a.com/x", "http://a.com/x/", "http://a.com/x/y", "http://a.com//x",
          "http://a.com/x?q=1", "http://a.com/x#f", "http://a.com/x?q=1#f", "http://b.a.com", "http://b.a.com/x",
          "https://a.com", "https://a.com/x", "http://a.com:8080", "http://a.com:8080/x", "http://com", "http://a.co.uk",
-         "http://b.a.co.uk/x", "http://co.uk", "http://a.com/xy", "http://a.com/x|y?q=1|2", "http://a.com/x?q=1|", "http://a.com:0", "http://a.com:0/x"]
+         "http://b.a.co.uk/x", "http://co.uk", "http://a.com/xy", "http://a.com/x|y?q=1|2", "http://a.com/x?q=1|", "http://a.com:0", "http://a.com:0/x", "http://a.com./", "http://a.com:/x"]
 SMALL_Q = SMALL + ["http://c.b.a.com/x/y/z?q=1#f", "http://a.com/x/y/z", "http://A.com/x", "http://www.a.com/x", "a.com/x",
                    "http://a.com/X", "http://x.co.uk", "http://a.com:8080/x/y", "https://b.a.com/x", "http://a.com/x/?q=1",
                    "http://a.com/x//y", "http://ab.com", "http://a.com/?q=1", "http://a.com/#f", "http://uk",
@@ -229,7 +241,7 @@ def _enum(acc, shard, nshards, seed, tier, length=2):
 
 
 BIG_HOSTS = ["a.com", "b.a.com", "c.b.a.com", "www.a.com", "a.co.uk", "b.a.co.uk", "com", "x.kawasaki.jp", "a.x.kawasaki.jp",
-             "A.com", "fr.a.com", "m.a.com"]
+             "A.com", "fr.a.com", "m.a.com", "a.com.", "uk", "co.uk", "bbc.co.uk"]
 BIG_PATHS = ["", "/", "/x", "/x/", "/x/y", "/x//y", "/x/y/z", "/X", "/x/index.html", "/%78", "/x/amp/",
              # dot segments, also climbing above the root; a literal '|' inside a stem (never followed by '<stem letter>:', which the
              # serialized format cannot tell from a separator)
@@ -246,7 +258,7 @@ KW = {
 
 def _strategy(tier):
     url = st.tuples(st.sampled_from(["http://", "https://", "http://", ""]), st.sampled_from(BIG_HOSTS),
-                    st.sampled_from(["", "", ":8080", ":80", ":0", ":080"]), st.sampled_from(BIG_PATHS), st.sampled_from(BIG_TAILS)).map("".join)
+                    st.sampled_from(["", "", ":8080", ":80", ":0", ":080", ":"]), st.sampled_from(BIG_PATHS), st.sampled_from(BIG_TAILS)).map("".join)
 
     @st.composite
     def hist(draw):
